@@ -35,6 +35,9 @@ class World:
         self.root = scratch_dir('vf-c17-')
         self.cdir = os.path.join(self.root, 'cache')
         self.path = os.path.join(self.root, 'mod.py')
+        import re
+        if re.search(r'coding[=:]', ''.join(content.splitlines(True)[:2])):
+            content = '#\n#\n' + content        # keep accidental coding declarations (windows of real code) off lines 1-2
         self.content = content
         self.data = content.encode('utf-8', 'replace')
         with open(self.path, 'wb') as f:
